@@ -42,7 +42,8 @@ def doc_plan(tier):
     if tier == "quick":
         return [(5, 3, "fstructure", "default"), (3, 2, "finline", "default"), (3, 2, "fcode", "default"), (3, 2, "fstructure", "single"),
                 (2, 2, "finline", "single")]
-    return [(6, 3, "fstructure", "default"), (4, 3, "finline", "default"), (4, 3, "fcode", "default"), (4, 3, "fstructure", "single"),
+    # (finline at 4 nodes is 7.6 M documents since links with line endings are admitted inside containers: more than the replay holds in memory)
+    return [(6, 3, "fstructure", "default"), (3, 3, "finline", "default"), (4, 3, "fcode", "default"), (4, 3, "fstructure", "single"),
             (3, 2, "finline", "single"), (3, 2, "fcode", "single"), (3, 2, "fstructure", "pairs"), (3, 2, "finline", "pairs")]
 
 
